@@ -10,10 +10,10 @@ PREFIX = {'OpenSSH': '', 'Dropbear SSH': 'd', 'libssh': 'l1'}
 BANNERS = {'OpenSSH': 'OpenSSH_', 'Dropbear SSH': 'dropbear_', 'libssh': 'libssh-', 'TinySSH': 'tinyssh_', 'RomSShell': 'RomSShell_', 'none': None}
 SERVER_SETS = {
     'weak': {'kex': ['diffie-hellman-group1-sha1', 'diffie-hellman-group14-sha1', 'curve25519-sha256'], 'key': ['ssh-dss', 'ssh-ed25519'],
-             'enc': ['3des-cbc', 'aes128-ctr', 'arcfour'], 'mac': ['hmac-md5', 'hmac-sha2-256']},
+             'enc': ['3des-cbc', 'aes128-ctr', 'arcfour', 'rijndael-cbc@lysator.liu.se'], 'mac': ['hmac-md5', 'hmac-sha2-256']},
     'modern': {'kex': ['curve25519-sha256', 'curve25519-sha256@libssh.org', 'sntrup761x25519-sha512@openssh.com'], 'key': ['ssh-ed25519', 'rsa-sha2-512'],
                'enc': ['chacha20-poly1305@openssh.com', 'aes256-gcm@openssh.com'], 'mac': ['hmac-sha2-256-etm@openssh.com', 'umac-128-etm@openssh.com']},
-    'gss': {'kex': ['gss-group1-sha1-toWM5Slw5Ew8Mqkay+al2g==', 'gss-gex-sha1-x', 'curve25519-sha256'], 'key': ['ssh-ed25519'], 'enc': ['aes128-ctr'], 'mac': ['hmac-sha2-256']},
+    'gss': {'kex': ['gss-group1-sha1-toWM5Slw5Ew8Mqkay+al2g==', 'gss-gex-sha1-x', 'gss-group1-sha1-eipGX3TCiQSrx573bT1o1Q==', 'curve25519-sha256'], 'key': ['ssh-ed25519'], 'enc': ['aes128-ctr'], 'mac': ['hmac-sha2-256']},
     'strict-cbc': {'kex': ['curve25519-sha256', 'kex-strict-s-v00@openssh.com'], 'key': ['ssh-ed25519'], 'enc': ['chacha20-poly1305@openssh.com', 'aes128-cbc', 'aes128-ctr'],
                    'mac': ['hmac-sha1-etm@openssh.com', 'umac-64-etm@openssh.com', 'hmac-sha2-256-etm@openssh.com']},
     'pseudo': {'kex': ['curve25519-sha256', 'ext-info-s', 'kex-strict-s-v00@openssh.com'], 'key': ['ssh-ed25519', 'ssh-ed25519-cert-v01@openssh.com'], 'enc': ['aes128-ctr'],
